@@ -426,6 +426,9 @@ func MakeOpaque(op string, v ssa.Value, args ...*Poly) *Poly {
 
 // globalInit returns the value a package-level variable is initialised with when that is
 // its only store in the whole package (a named constant in all but keyword).
+// GlobalInit exposes globalInit.
+func (ff *FuncFacts) GlobalInit(g *ssa.Global) ssa.Value { return ff.globalInit(g) }
+
 func (ff *FuncFacts) globalInit(g *ssa.Global) ssa.Value {
 	pkg := g.Pkg
 	if pkg == nil {
